@@ -335,6 +335,15 @@ type c20Case struct {
 	peers  map[int]*mockPeer
 	assume bool
 	pruneN int
+
+	opts    c20CaseOpts
+	self    route.Vertex
+	hb      *c20Hooked // nil unless opts.hooked
+	started time.Time  // fake-clock instant of Builder.Start()
+	ticks   int
+	withH   bool // every dump also reports the cache answers
+	focus   uint64
+	t       *testing.T
 }
 
 func (h *c20) pf(format string, a ...interface{}) { fmt.Fprintf(h.w, format+"\n", a...) }
@@ -524,6 +533,9 @@ type c20CaseOpts struct {
 	kind        string
 	assumeValid bool
 	height      uint32
+	hooked      bool // graph store on a transaction-barrier backend, single-entry caches (conc stream)
+	strict      bool // Builder.StrictZombiePruning
+	start       bool // Builder.Start(): the real zombie-pruning ticker runs
 }
 
 func (h *c20) runCase(o c20CaseOpts, body func(cs *c20Case)) {
@@ -540,32 +552,24 @@ func (h *c20) runCase(o c20CaseOpts, body func(cs *c20Case)) {
 
 		cs := &c20Case{
 			h: h, tc: tc, mids: map[string]int{}, scids: map[uint64]bool{},
-			peers: map[int]*mockPeer{}, notif: tc.notifier, assume: o.assumeValid,
+			peers: map[int]*mockPeer{}, notif: tc.notifier, assume: o.assumeValid, opts: o, t: t,
 		}
-		cs.g = c20MakeGraph(t, h.n%2 == 0)
-		cs.vg = graphdb.NewVersionedGraph(cs.g, lnwire.GossipVersion1)
-		var self route.Vertex
-		copy(self[:], selfKeyPriv.PubKey().SerializeCompressed())
+		copy(cs.self[:], selfKeyPriv.PubKey().SerializeCompressed())
+		self := cs.self
+		cs.chain = newC20Chain(int32(o.height))
+		if o.hooked {
+			cs.hb = newC20Hooked(t)
+			cs.g = cs.hb.open(t)
+		} else {
+			cs.g = c20MakeGraph(t, h.n%2 == 0)
+		}
 		if err := cs.g.SetSourceNode(context.Background(), models.NewV1ShellNode(self)); err != nil {
 			t.Fatalf("source node: %v", err)
 		}
-		cs.chain = newC20Chain(int32(o.height))
-		cs.builder, err = graph.NewBuilder(&graph.Config{
-			SelfNode:           self,
-			Graph:              cs.g,
-			Chain:              cs.chain,
-			ChainView:          newC20ChainView(),
-			ChannelPruneExpiry: graph.DefaultChannelPruneExpiry,
-			AssumeChannelValid: o.assumeValid,
-			IsAlias:            func(lnwire.ShortChannelID) bool { return false },
-		})
-		if err != nil {
-			t.Fatalf("builder: %v", err)
-		}
 		// Swap the fixture's mock graph source / mock chain / broadcast sink
 		// for the real ones (all gossiper goroutines are idle here).
+		cs.wire(t)
 		cfg := tc.gossiper.cfg
-		cfg.Graph = cs.builder
 		cfg.ChainIO = cs.chain
 		cfg.AssumeChannelValid = o.assumeValid
 		cfg.RebroadcastInterval = c20Rebroadcast
@@ -576,12 +580,47 @@ func (h *c20) runCase(o c20CaseOpts, body func(cs *c20Case)) {
 			return nil
 		}
 
-		h.pf("CASE %d kind=%s av=%d height=%d self=%d", h.n, o.kind, c20b2i(o.assumeValid),
-			o.height, h.keyID(self))
+		h.pf("CASE %d kind=%s av=%d height=%d self=%d strict=%d", h.n, o.kind, c20b2i(o.assumeValid),
+			o.height, h.keyID(self), c20b2i(o.strict))
 		body(cs)
+		// quiescent end of the case: what the store's caches answer must be what is durable
+		cs.withH = false
+		h.pf("coh %s", cs.dumpOpt(true))
 		h.pf("END")
 		h.w.Flush()
 	})
+}
+
+// wire builds the real graph.Builder over cs.g and makes it the gossiper's graph
+// source (also used after a simulated restart of the graph store).
+func (cs *c20Case) wire(t *testing.T) {
+	o := cs.opts
+	cs.vg = graphdb.NewVersionedGraph(cs.g, lnwire.GossipVersion1)
+	b, err := graph.NewBuilder(&graph.Config{
+		SelfNode:            cs.self,
+		Graph:               cs.g,
+		Chain:               cs.chain,
+		ChainView:           newC20ChainView(),
+		ChannelPruneExpiry:  graph.DefaultChannelPruneExpiry,
+		GraphPruneInterval:  c20PruneInterval,
+		FirstTimePruneDelay: c20PruneInterval,
+		AssumeChannelValid:  o.assumeValid,
+		StrictZombiePruning: o.strict,
+		IsAlias:             func(lnwire.ShortChannelID) bool { return false },
+	})
+	if err != nil {
+		t.Fatalf("builder: %v", err)
+	}
+	cs.builder = b
+	cs.tc.gossiper.cfg.Graph = b
+	if o.start {
+		cs.started = time.Now()
+		cs.ticks = 0
+		if err := b.Start(); err != nil {
+			t.Fatalf("builder start: %v", err)
+		}
+		t.Cleanup(func() { _ = b.Stop() })
+	}
 }
 
 // c20MakeGraph is graphdb.MakeTestGraph; with smallCaches and the bbolt store the
@@ -614,6 +653,7 @@ func c20MakeGraph(t *testing.T, smallCaches bool) *graphdb.ChannelGraph {
 }
 
 const c20Rebroadcast = 24 * time.Hour
+const c20PruneInterval = time.Hour
 
 func c20b2i(b bool) int {
 	if b {
@@ -765,7 +805,11 @@ func c20Classify(err error) string {
 
 // dump prints the canonical graph: channels, policies, nodes (all read from
 // the graph DB) and the zombie-index entries of every scid the case touched.
-func (cs *c20Case) dump() string {
+func (cs *c20Case) dump() string { return cs.dumpOpt(cs.withH) }
+
+// dumpOpt: with cacheAnswers the dump also carries `H=`: what the store's
+// (cache-backed) HasV1ChannelEdge answers for every scid of the case.
+func (cs *c20Case) dumpOpt(cacheAnswers bool) string {
 	h := cs.h
 	ctx := context.Background()
 	var chans, pols, nodes, zs []string
@@ -836,7 +880,35 @@ func (cs *c20Case) dump() string {
 		sort.Strings(xs)
 		return strings.Join(xs, "|")
 	}
-	return fmt.Sprintf("C=%s P=%s N=%s Z=%s", j(chans), j(pols), j(nodes), j(zs))
+	out := fmt.Sprintf("C=%s P=%s N=%s Z=%s", j(chans), j(pols), j(nodes), j(zs))
+	if cacheAnswers {
+		var hs []string
+		for _, s := range ids {
+			// (single-entry caches: asking for another scid would evict the
+			// entry under test, so the per-op report is about the focus only)
+			if cs.focus != 0 && s != cs.focus && cs.withH {
+				continue
+			}
+			hs = append(hs, fmt.Sprintf("%d:%s", s, cs.cacheAnswer(s)))
+		}
+		out += " H=" + j(hs)
+	}
+	return out
+}
+
+// cacheAnswer is the store's HasV1ChannelEdge answer exists:zombie:ts1:ts2.
+func (cs *c20Case) cacheAnswer(scid uint64) string {
+	t1, t2, ex, zo, err := cs.g.HasV1ChannelEdge(context.Background(), scid)
+	if err != nil && !errors.Is(err, graphdb.ErrGraphNoEdgesFound) {
+		return "err"
+	}
+	u := func(t time.Time) int64 {
+		if t.Unix() < 0 {
+			return 0
+		}
+		return t.Unix()
+	}
+	return fmt.Sprintf("%d:%d:%d:%d", c20b2i(ex), c20b2i(zo), u(t1), u(t2))
 }
 
 func (cs *c20Case) mid(raw []byte) int {
@@ -2381,6 +2453,7 @@ func TestVerifC20(t *testing.T) {
 	for v := 0; v < rep(2, 3); v++ {
 		h.caseAssumeValid(v)
 	}
+	h.concCases(thorough, seed)
 	nrand := rep(300, 4000)
 	if d, err := strconv.Atoi(os.Getenv("C20_RANDOM_DIV")); err == nil && d > 0 {
 		nrand /= d
